@@ -125,8 +125,13 @@ Definition entry (sel : Z) (toks : list Z) : list Z :=
              (* a view that is not ready: OpenSession skips the recovery *)
              let pods'' := if Z.eqb (nth 5 job 0) 0 then pods' else map (fun p => (0, snd (fst p), snd p)) pods' in
              let '(subs, jb) := recover_all hn real policy pods'' in
+             let table := name_table (scratch (mkEnv [] []) (trace_objs d leaves)) in
+             let '(jr, srs) := trace_limits policy (nth 0 job 0) (nth 3 job 0) (nth 7 job 0) (nth 8 job 0) (map fst subs) in
+             let '(jl, sls) := adjust false table jr srs in
+             let eLim := fun (o : option Z) => match o with Some t => [1; t] | None => [0; 0] end in
              tag 1 ++ eLca jb ++
-             tag 2 ++ eList (fun rs => fst rs :: eOptPos (snd rs)) subs
+             tag 2 ++ eList (fun rs => fst rs :: eOptPos (snd rs)) subs ++
+             tag 3 ++ eLim jl ++ eList (fun rl => fst rl :: eLim (snd rl)) sls
          | None => bad_input end
   (* ---- laws on the implementation's results ---- *)
   | 101 => match run_dec (let* e := dEnv in let* objs := dList dObj in let* v := dView in ret (e, objs, v)) toks with
